@@ -585,8 +585,9 @@ theorem skeleton_ops_ok (W mx sq : Nat) (f : Form) (a b : List Nat) (byVal : Boo
     (∀ op ∈ ((fragAdd W f a b).ops ++ (fragAdd W f a b).cleanup).map AOp.toOp, op.Ok mx) ∧
     (∀ op ∈ ((fragSub W f a b).ops ++ (fragSub W f a b).cleanup).map AOp.toOp, op.Ok mx) ∧
     (∀ op ∈ ((fragMul W sq f a b).ops ++ (fragMul W sq f a b).cleanup).map AOp.toOp, op.Ok mx) ∧
+    (∀ op ∈ ((fragDivRem W byVal f a b).ops ++ (fragDivRem W byVal f a b).cleanup).map AOp.toOp, op.Ok mx) ∧
     (∀ op ∈ ((fragShl W mx byVal a k).ops ++ (fragShl W mx byVal a k).cleanup).map AOp.toOp, op.Ok mx) ∧
     (∀ op ∈ ((fragShr W byVal a k).ops ++ (fragShr W byVal a k).cleanup).map AOp.toOp, op.Ok mx) :=
-  ⟨AOp.map_ok mx _, AOp.map_ok mx _, AOp.map_ok mx _, AOp.map_ok mx _, AOp.map_ok mx _⟩
+  ⟨AOp.map_ok mx _, AOp.map_ok mx _, AOp.map_ok mx _, AOp.map_ok mx _, AOp.map_ok mx _, AOp.map_ok mx _⟩
 
 end Dashu.Props.C17
